@@ -597,6 +597,9 @@ func (V *Verifier) checkExit(fc *FuncCtx, s *State, vals []Val, fi *FuncInfo, is
 	if fct.NoAlloc {
 		s.oblige("post", "noalloc", sEq(s.alloc, fc.entryAlloc()), endPos)
 	}
+	if fct.Allocates > 0 {
+		s.oblige("post", "allocates", sEq(s.alloc, sAdd(fc.entryAlloc(), sInt(int64(fct.Allocates)))), endPos)
+	}
 	for i, e := range fct.Ensures {
 		env := fc.newSpecEnv(s, names, fc.entrySnap, fi.Decl.Body.Lbrace+1, fc.Name+"/ensures")
 		s.oblige("post", fmt.Sprintf("ensures%d", i+1), env.evalBool(e.Expr), endPos)
@@ -844,6 +847,27 @@ func (st *State) execGhost(c *Clause, pos token.Pos) {
 	}
 	env := fc.newSpecEnv(st, fc.endNames, fc.entrySnap, pos, fc.Name+"/ghost "+c.Name)
 	v := env.eval(c.Expr)
+	if strings.HasPrefix(c.Name, "all ") {
+		f := strings.Split(strings.TrimSpace(strings.TrimPrefix(c.Name, "all ")), ".")
+		if len(f) != 2 || v.K != KRaw {
+			panic(vcErr("ghost all T.f = <sequence>: " + c.Name))
+		}
+		var structT types.Type
+		if o := st.pkg().Types.Scope().Lookup(f[0]); o != nil {
+			structT = o.Type()
+		}
+		gh := ""
+		if structT != nil {
+			gh = ghostFieldHeap(structT, f[1])
+		}
+		if gh == "" || ghostFieldSort(structT, f[1]) != "(Array Int Int)" {
+			panic(vcErr("ghost all: no integer ghost field " + c.Name))
+		}
+		st.heapGet(gh, "(Array Int Int)")
+		st.noteUnknownWrite(gh)
+		st.heapSet(gh, "(Array Int Int)", v.S)
+		return
+	}
 	if len(c.List) == 1 {
 		// ghost obj.field = e
 		base := env.eval(c.List[0].Args[0])
